@@ -332,6 +332,7 @@ def run(ctx):
     ctx.ob("R10.5", "token-width=len(text)", any(c.name() == "from_str" for c in gw.calls()), "a token's width is TextWidth::from_str(text)", gw.where())
     _handed_on(ctx, F)
     _rerooting(ctx, F)
+    _trivia_order(ctx, F)
     _controls(ctx, F)
 
 
@@ -569,6 +570,65 @@ def _rerooting(ctx, F):
                "green-to-green helper used by R10.7 as value-preserving is covered by the sibling accounting", hf.where() if hf else "")
     ctx.floor("routines reading the children of a green node", n_fns, 3)
     ctx.floor("re-rooting sites", n_rr, 1)
+
+
+def _trivia_order(ctx, F):
+    """R10.10 / R10.11: delayed skips keep the pending trivia in source order."""
+    from . import trivia_order as TO
+    S = TO.Summaries(F)
+    sinks = {p: v for p, v in S.SINK.items() if v}
+    n_sites = n_clean = 0
+    for p, f in sorted(S.fns.items()):
+        try:
+            res = TO.analyse(S, f)
+        except RuntimeError as e:
+            ctx.ob("R10.10", "%s|state-limit" % fn_key(p), False, "the path search did not finish: %s" % e, f.where())
+            continue
+        if res:
+            ctx.analysed(f)
+        seen_keys = Counter()
+        for o, skips, keeps in res:
+            base = "%s|%s" % (fn_key(p), o.key())
+            seen_keys[base] += 1
+            if seen_keys[base] > 1:
+                base += "#%d" % seen_keys[base]
+            by_sink = {}
+            for (sink, dirt), path in skips.items():
+                by_sink.setdefault(sink, {})
+                for src in dirt:
+                    by_sink[sink].setdefault(src, path)
+                if not dirt:
+                    by_sink[sink].setdefault(None, path)
+            for sink, srcs in sorted(by_sink.items()):
+                n_sites += 1
+                dirty = sorted(x for x in srcs if x is not None)
+                if not dirty:
+                    n_clean += 1
+                    ctx.ob("R10.10", "%s|%s|in-order" % (base, sink), True,
+                           "skipped with nothing consumed after it pending on every path", f.where(o.line()))
+                for src in dirty:
+                    ctx.ob("R10.10", "%s|%s|after:%s" % (base, sink, src), False,
+                           "the node taken at line %s is pushed on the pending trivia by %s although trivia consumed after its first token "
+                           "may already be pending (left by %s; blocks %s): the skipped text is re-attached in front of the node, out of "
+                           "source order" % (o.line(), sink, src, "->".join("bb%s" % b for b in srcs[src][:18])), f.where(o.line()))
+            for (keeper, old), path in sorted(keeps.items(), key=str):
+                ctx.ob("R10.11", "%s|kept-by:%s|after:%s" % (base, keeper, old), False,
+                       "the node taken at line %s is kept in the tree (%s) after the older node of %s was pushed on the pending trivia: the "
+                       "older node's text is attached behind it (blocks %s)" % (o.line(), keeper, old, "->".join("bb%s" % b for b in path[:18])),
+                       f.where(o.line()))
+    ctx.ob("R10.11", "kept-nodes-precede-no-older-skip", True,
+           "%d delayed-skip sites analysed; a node that stays in the tree is never preceded by the delayed skip of an older node, "
+           "except as listed" % n_sites, "")
+    ctx.floor("routines that push a parameter on the pending trivia (delayed-skip sinks)", len(sinks), 1)
+    ctx.floor("delayed-skip sites (origin, sink)", n_sites, 6)
+    ctx.floor("parser routines summarised for pending trivia", len(S.routines), 100)
+    ctx.floor("routines that may return with own trivia pending", sum(S.D.values()), 40)
+    ctx.floor("routines that always flush the pending trivia", sum(S.MF.values()), 20)
+    push_r = [p for p in S.pushers if p in S.routines]
+    ctx.control("every routine that pushes on pending_trivia is a sink or may leave trivia pending",
+                bool(push_r) and all(S.D[p] or S.SINK[p] for p in push_r) and bool(S.flushers))
+    ctx.notes.append("R10.10 summaries: %d routines, sinks %s, %d may leave trivia pending, %d always flush; %d delayed-skip sites, %d in order" % (
+        len(S.routines), sorted(last_seg(p) for p in sinks), sum(S.D.values()), sum(S.MF.values()), n_sites, n_clean))
 
 
 def _controls(ctx, F):
